@@ -442,3 +442,12 @@ package lexer
 //@ func (*Error).Error [C06]
 //@   requires e != nil
 //@   before call lexer.formatError#1: assert pos == e.Pos && message == e.Msg
+
+// SymbolsByRune inverts the symbol table (the grammar front end looks token names up by type).
+//@ func SymbolsByRune [C19]
+//@   requires def != nil
+//@   fresh result
+//@   ensures result != nil
+//@   let syms map[string]TokenType = result0 after call Definition.Symbols#1
+//@   ensures foralls(s, has(syms, s) ==> has(result, syms[s]))
+//@   loop 1 invariant out != nil && fresh(out) && foralls(s, visited(1, s) ==> has(out, syms[s]))
